@@ -30,6 +30,7 @@ CONSTANTS Front,        \* "v2" | "legacy"
           Races,        \* {{}}: a cancellation is complete before the next packet; otherwise also sets X of Interests whose
                         \* cancellation is *in flight* (requested, clean-up not yet run) when a packet is processed
           Defer,        \* {FALSE}: every Interest is awaited at once; BOOLEAN: the caller may also await it later
+          Reconn,       \* BOOLEAN: main_loop may be run again on the same application object after a shutdown
           Dev           \* subset of {"legacySlowValidator"}
 
 VARIABLES now, up, used, ph, tm, dl, out, vrun,
@@ -181,6 +182,10 @@ Shutdown ==
   /\ ph' = [e \in Entry |-> IF ph[e] = "pend" THEN (IF aw[e] THEN "fin" ELSE "ready") ELSE ph[e]]
   /\ UNCHANGED <<now, used, tm, dl, vrun, aw, held>>
 
+\* main_loop runs again on the same application object: nothing of the previous connection is pending any
+\* more (validators that were running then may still finish), new Interests start from clean tables
+Connect == Reconn /\ ~up /\ up' = TRUE /\ UNCHANGED <<now, used, ph, tm, dl, out, vrun, aw, held, buf>>
+
 Nacked(t) == { e \in Entry : ph[e] = "pend" /\ SameFullName(tm[e], t) }
 RecvNackX(t, r, env, X) ==
   /\ up /\ \A e \in X : Cancellable(e)
@@ -201,7 +206,7 @@ Next ==
   \/ \E t \in Templates : (\E df \in Defer : Express(t, df)) \/ ExpressDown(t)
   \/ \E d \in DataSet, env \in Envs, X \in Races : RecvDataX(d, env, X)
   \/ \E e \in Entry, v \in Verdicts : ValFinish(e, v) \/ LateFinish(e, v)
-  \/ Fire \/ Tick \/ Shutdown
+  \/ Fire \/ Tick \/ Shutdown \/ Connect
   \/ \E e \in Entry : Cancel(e) \/ Await(e)
   \/ \E t \in Templates, r \in Reasons, env \in Envs, X \in Races : RecvNackX(t, r, env, X)
   \/ \E j \in Junk : RecvJunk(j)
